@@ -407,6 +407,8 @@ type tierCfg struct {
 	// CrossEvery: one solver query in this many is re-asked of the second solver
 	// (0 = the default of 40; negative = off).
 	CrossEvery int `json:"cross_every"`
+	// Skip: the harness is not part of this tier
+	Skip bool `json:"skip"`
 }
 
 type harnessCfg struct {
@@ -996,6 +998,9 @@ func checkMain(prop, tier string) int {
 			if len(tc.Configs) == 0 {
 				tc = h.Quick
 			}
+		}
+		if tc.Skip {
+			continue
 		}
 		cfgsList := tc.Configs
 		if len(cfgsList) == 0 {
